@@ -109,6 +109,25 @@ def _work(args):
                 ampycloud.metar(df)
         except Exception as e:
             findings.append(('C11.run-raised', f'{type(e).__name__}'))
+    # snapshot isolation at the level of behaviour: with every leaf given per call, a chunk must work with its own
+    # snapshot whatever the global holds before, during and after (every result-relevant leaf of the global poisoned)
+    if k % 2 == 0:
+        full = common.packaged_defaults()
+        scenes._nested_update(full, copy.deepcopy(prms))
+        with warnings.catch_warnings():
+            warnings.simplefilter('ignore')
+            ref = metamorph.observe(scenes.run_scene(rows, full))
+            saved = dynamic.AMPYCLOUD_PRMS
+            poisoned = copy.deepcopy(saved)
+            scenes.poison_global(poisoned)
+            dynamic.AMPYCLOUD_PRMS = poisoned
+            try:
+                got = metamorph.observe(scenes.run_scene(rows, full, route=rng.choice(['stepwise', 'run'])))
+            finally:
+                dynamic.AMPYCLOUD_PRMS = saved
+        if got != ref:
+            findings.append(('C11.chunk-works-with-its-own-snapshot',
+                             f'with every leaf given per call the result depends on the global: differs in {[x for x in ref if ref.get(x) != got.get(x)] or list(set(ref) ^ set(got))}'))
     if frame_fingerprint(df) != fp_before:
         findings.append(('C11.caller-frame-untouched', f'the caller DataFrame changed (values, dtypes, columns, index or buffers); route {route}, layout {layouts}'))
     if sysworld.observe('x', [('C', p)]) != p_before:
